@@ -219,9 +219,21 @@ func cmdVerify(args []string) int {
 	nocache := fs.Bool("nocache", false, "ignore verdict cache")
 	tier := fs.String("tier", "quick", "tier")
 	verbose := fs.Bool("v", false, "verbose")
+	mut := fs.String("mut", "", "overlay mutation: relpath::old::new")
 	fs.Parse(args)
 	e := NewEngine(*repo, *verif)
 	e.tier = *tier
+	if *mut != "" {
+		parts := strings.SplitN(*mut, "::", 3)
+		if len(parts) != 3 {
+			fmt.Fprintln(os.Stderr, "bad -mut")
+			return 2
+		}
+		if err := e.addMutation(parts[0], parts[1], parts[2]); err != nil {
+			fmt.Fprintln(os.Stderr, err)
+			return 2
+		}
+	}
 	t0 := time.Now()
 	if err := e.Load(strings.Split(*pk, ",")); err != nil {
 		fmt.Fprintln(os.Stderr, "load:", err)
@@ -301,6 +313,25 @@ func cmdVerify(args []string) int {
 	return 0
 }
 
+func (e *Engine) addMutation(rel, old, new string) error {
+	path := e.repo + "/" + rel
+	data, err := os.ReadFile(path)
+	if err != nil {
+		return err
+	}
+	if e.overlay == nil {
+		e.overlay = map[string][]byte{}
+	}
+	if cur, ok := e.overlay[path]; ok {
+		data = cur
+	}
+	if !strings.Contains(string(data), old) {
+		return fmt.Errorf("mutation: %q not found in %s", old, rel)
+	}
+	e.overlay[path] = []byte(strings.Replace(string(data), old, new, 1))
+	return nil
+}
+
 func sanitizeFile(s string) string {
 	r := strings.NewReplacer("/", "_", " ", "_", "(", "", ")", "", "*", "p", "#", "-", ":", "_", "[", "_", "]", "_", "=", "_")
 	return r.Replace(s)
@@ -359,5 +390,4 @@ func runObligations(sv *Solver, obls []*Obligation) []Result {
 	return results
 }
 
-func cmdCheck(args []string) int    { fmt.Println("not yet"); return 2 }
 func cmdSelftest(args []string) int { fmt.Println("not yet"); return 2 }
